@@ -532,6 +532,7 @@ class Interp:
         elif op == 'bpb':
             c = self.clocks[f't{st[1]}']
             own = clock is c
+            bar0 = c.beats2bars(c.beats)    # on the grid about to be left
             try:
                 c.beats_per_bar = st[2]
                 err = None
@@ -540,7 +541,8 @@ class Interp:
             self.event('bpb', rid, st[1], st[2],
                        {'own': own, 'err': err, 'beats': c.beats,
                         'bbb': c.base_bar_beat, 'base_bar': c.base_bar,
-                        'bpb': c.beats_per_bar})
+                        'bpb': c.beats_per_bar, 'bar0': bar0,
+                        'bar1': c.beats2bars(c.beats)})
         elif op == 'seed':
             rout.rand_seed = st[1]
             self.event('seed', rid, st[1])
